@@ -254,6 +254,26 @@ def plan_C18(seed, run, engine, tier="quick"):
         if rng.random() < 0.2 and ocls in ("Lasso", "ElasticNet", "WeightedLasso", "MCPRegression"):
             ops.append(dict(op="path", id=oid, data=len(datasets) - 1, container="F",
                             alphas=[float(oargs["alpha"] * f) for f in (2.0, 0.5)]))
+    # a second object with *the same* class and hyper-parameters (state keyed by hyper-parameter
+    # values, e.g. a cache of configured instances, only leaks between equal configurations):
+    # it sweeps a path (which rewrites alpha on its compiled penalty) or is fitted on other data
+    import copy as _copy
+    if rng.random() < 0.45 and cls0 not in ("GeneralizedLinearEstimator", "IterativeReweightedL1"):
+        ops.append(dict(op="new", id="same", cls=cls0, args=_copy.deepcopy(args0)))
+        kind = ds0["kind"]
+        Xs = np.array(ds0["X"])
+        T = np.array(ds0["y"]).shape[1] if kind == "multi" else None
+        alt = _dataset(rng, kind, p=Xs.shape[1], T=T)
+        datasets.append(alt)
+        if cls0 in ("Lasso", "WeightedLasso", "ElasticNet", "MCPRegression", "MultiTaskLasso", "SqrtLasso") \
+                and rng.random() < 0.7:
+            a0 = args0["alpha"]
+            ops.append(dict(op="path", id="same", data=len(datasets) - 1 if rng.random() < 0.5 else 0,
+                            container=choice(rng, ["F", "csc"]) if cls0 != "SqrtLasso" else "F",
+                            alphas=[float(a0 * f) for f in (1.0, 0.3, 0.05)]))
+        else:
+            ops.append(dict(op="fit", id="same", data=len(datasets) - 1, container=cont0, judge=False,
+                            labels=_labels(rng, kind)))
     ops.append(dict(op="new", id="e0", cls=cls0, args=args0))
     labels = _labels(rng, ds0["kind"])
     if rng.random() < 0.5:
